@@ -59,6 +59,7 @@ def world(draw, max_refs=8, max_queries=5, min_refs=1, min_queries=1, nasty_name
 		'id_attr': draw(st.sampled_from(ID_ATTRS)),
 		'sig_perm_seed': draw(st.one_of(st.none(), st.integers(0, 1000))),
 		'extra_sigs': draw(st.sampled_from([0, 0, 1, 3])),
+		'taxa_id_order': draw(st.sampled_from([None, 'reversed', None])),
 	}
 
 
@@ -231,10 +232,16 @@ class World:
 			def real_set():
 				gset = ReferenceGenomeSet(key='verif/world', version='1.0', name='verif world', description='synthetic, "quoted", ünï')
 				s.add(gset)
-				tobjs = []
-				for i, t in enumerate(self.taxa):
-					tobjs.append(Taxon(key=f'world/t{i}', name=t.get('name') or f'taxon{i}', rank=t.get('rank'), distance_threshold=t['thr'],
-					                   report=bool(t['report']), ncbi_id=t.get('ncbi_id'), genome_set=gset))
+				tobjs = [None] * len(self.taxa)
+				rev = self.w.get('taxa_id_order') == 'reversed'
+				# 'reversed': a curated database in which higher taxa were inserted AFTER their children (a genus added above existing
+				# species): rows are written leaf-first, so every parent has a LARGER primary key than its children
+				for i in (reversed(range(len(self.taxa))) if rev else range(len(self.taxa))):
+					t = self.taxa[i]
+					tobjs[i] = Taxon(key=f'world/t{i}', name=t.get('name') or f'taxon{i}', rank=t.get('rank'), distance_threshold=t['thr'],
+					                 report=bool(t['report']), ncbi_id=t.get('ncbi_id'), genome_set=gset)
+					if rev:
+						s.flush()
 				for i, t in enumerate(self.taxa):
 					if t['parent'] is not None:
 						tobjs[i].parent = tobjs[t['parent']]
